@@ -39,7 +39,9 @@ def getQueries : Json → Option (List Json)
 
 /-! ### the per-run configuration -/
 
-/-- a file sink as its environment treats it: can the file be opened for appending, do writes succeed -/
+/-- a file sink as its environment treats it: can the file be opened for appending, do writes succeed
+(`writeOk` is ONE flag for every write of the call — a sink whose first writes succeed and a later one fails is
+not expressible) -/
 structure SinkSpec where
   openOk : Bool
   writeOk : Bool
@@ -163,7 +165,8 @@ def decodeOptI64 : Option Json → Option (Option Int)
     | none => none
 
 /-- `from_value::<ResponseOutputPolicy>` (top level: the tag must be the name; the `Combined` policy is not
-modelled — `isCombined` — and the harness does not offer it); `env` says how the file system treats a file name -/
+modelled — `isCombined` — nor is a file policy with the CSV format — `isCsvFile`; for both the answer `none`
+is NOT the code's, and the harness offers neither); `env` says how the file system treats a file name -/
 def decodePolicy (env : String → Bool × Bool) (j : Json) : Option OutPolicy :=
   match tagged ["none", "file", "combined"] false j with
   | some ("none", c) => if c.arity 0 then some .none else none
@@ -184,6 +187,21 @@ def decodePolicy (env : String → Bool × Bool) (j : Json) : Option OutPolicy :
 def isCombined (j : Json) : Bool :=
   match tagged ["none", "file", "combined"] false j with
   | some ("combined", _) => true
+  | _ => false
+
+/-- the value names a file policy whose format is the (unmodelled, C19) CSV format: in the code such a policy
+deserializes and a CSV sink is built; `decodePolicy` answers `none` for it, which is NOT what the code does —
+every statement about a refused output policy therefore carries `isCsvFile v = false` next to
+`isCombined v = false`; the harness offers neither -/
+def isCsvFile (j : Json) : Bool :=
+  match tagged ["none", "file", "combined"] false j with
+  | some ("file", c) =>
+    match c.req "format" 1 with
+    | some fmt =>
+      (match tagged ["json", "csv"] true fmt with
+       | some ("csv", _) => true
+       | _ => false)
+    | none => false
   | _ => false
 
 structure RunOverrides where
@@ -241,7 +259,7 @@ structure App where
 overrides (parallelism, persistence, output policy), `build` of the sink, input plugins, load balancing
 (`Err` for parallelism 0), the error responses written to the sink, the early return, the searches with each
 response written to the sink — under both policies a failed write ends the call with `Err`
-(`run_batch_without_responses` propagates it since fix bb0a2e6). -/
+(`run_batch_without_responses` propagates it since fix 80a5c9a). -/
 def callCoreO {α : Type} (W : WOps α) (cfg : Config) (sink : OutPolicy) (respond : Json → Json)
     (batch : List Json) : Outcome (Except CallErr (List Json)) :=
   match parChunksO (chunkSize batch.length cfg.selfPar) batch with
